@@ -250,6 +250,94 @@ def count_E(n, m):
     return sum(1 for _ in enum_E(n, m))
 
 
+# ------------------------------------------------------------------ P: conflict family (two regions of a parallel)
+def enum_P():
+    """Transitions enabled by the same event in the two regions of a <parallel>, with every combination of
+    region size, position of the parallel among the children of <scxml>, sources and targets: the shapes that
+    decide removeConflictingTransitions (exit sets that touch at their first / last state, nested, disjoint)."""
+    for pos in ("first", "last", "middle"):
+        for n1 in (1, 2):
+            for n2 in (1, 2):
+                for s1 in range(n1):
+                    for s2 in range(n2):
+                        tg1s = ["out", "self", "region", "par", None] + (["sib"] if n1 == 2 else [])
+                        tg2s = ["out", "self", "region", "par", None] + (["sib"] if n2 == 2 else [])
+                        for tg1 in tg1s:
+                            for tg2 in tg2s:
+                                for int2 in ((False, True) if tg2 in ("self", "sib") else (False,)):
+                                    yield (pos, n1, n2, s1, s2, tg1, tg2, int2)
+
+
+def build_P(desc):
+    pos, n1, n2, s1, s2, tg1, tg2, int2 = desc
+    r1k = [State(name="a%d" % i) for i in range(n1)]
+    r2k = [State(name="x%d" % i) for i in range(n2)]
+    r1 = State(*r1k, name="R1", initial=[r1k[s1].name])
+    r2 = State(*r2k, name="R2", initial=[r2k[s2].name])
+    p = Parallel(r1, r2, name="P")
+    out = State(name="Out", trans=[T("back", ["P"])])
+    out2 = State(name="Out2")
+
+    def target(tg, kids, me, region):
+        return {"out": ["Out"], "self": [kids[me].name], "region": [region.name], "par": ["P"], None: [],
+                "sib": [kids[1 - me].name] if len(kids) == 2 else []}[tg]
+    r1k[s1].trans.append(T("e", target(tg1, r1k, s1, r1)))
+    # the second transition: from the atomic state, or (internal variant) from the region to its child
+    if int2:
+        r2.trans.append(T("e", target(tg2, r2k, s2, r2), internal=True))
+    else:
+        r2k[s2].trans.append(T("e", target(tg2, r2k, s2, r2)))
+    kids = {"first": [p, out], "last": [out, p], "middle": [out, p, out2]}[pos]
+    root = Scxml(*kids)
+    root.initial = ["P"]
+    c = Chart(root, tags=["P"])
+    c.desc = repr(desc)
+    return c
+
+
+# ------------------------------------------------------------------ H: history family (record, leave, re-enter, again)
+def enum_H():
+    for deep in (False, True):
+        for nested in (False, True):          # b is compound (deep history then records below it)
+            for default in ("a", "b"):
+                for par in (False, True):     # the history's parent sits in a parallel region
+                    yield (deep, nested, default, par)
+
+
+def build_H(desc):
+    deep, nested, default, par = desc
+    a = State(name="a", trans=[T("next", ["b"])])
+    if nested:
+        b1 = State(name="b1", trans=[T("next", ["b2"])])
+        b2 = State(name="b2", trans=[T("next", ["a"])])
+        b = State(b1, b2, name="b")
+    else:
+        b = State(name="b", trans=[T("next", ["a"])])
+    h = History([default], deep=deep, name="h")
+    p = State(h, a, b, name="p", trans=[T("out", ["q"])])
+    q = State(name="q", trans=[T("back", ["h"])])
+    if par:
+        o = State(State(name="o1"), name="o")
+        pr = Parallel(State(p, q, name="reg"), o, name="pr")
+        root = Scxml(pr)
+    else:
+        root = Scxml(p, q)
+    c = Chart(root, tags=["H"])
+    c.desc = repr(desc)
+    return c
+
+
+def words_H(maxlen):
+    out = [[]]
+    for L in range(1, maxlen + 1):
+        for w in itertools.product(("next", "out", "back"), repeat=L):
+            # only words in which a "back" follows an "out" are interesting beyond length 2
+            if L > 2 and not any(w[i] == "out" and "back" in w[i + 1:] for i in range(L)):
+                continue
+            out.append(list(w))
+    return out
+
+
 # ------------------------------------------------------------------ event words
 def alphabet(chart):
     evs = ["e", "f"]
